@@ -20,6 +20,7 @@ package main
 
 import (
 	"bytes"
+	"encoding/binary"
 	"encoding/json"
 	"flag"
 	"fmt"
@@ -74,7 +75,17 @@ type caseIn struct {
 	Burst   int         `json:"burst,omitempty"`    // dgram pacing: pause after every Burst messages of a writer
 	PauseUs int         `json:"pause_us,omitempty"`
 	ReadVia string      `json:"read_via,omitempty"` // dgram: handle | transport (wt: Transport.ReadUnreliable)
-	Backend string      `json:"backend,omitempty"`  // ws: backend of the binary that generated the case (informational)
+	// dgram, hostile peer: raw datagrams sent on the session underneath the writing transport
+	// (always the accepted side, dir s2c), never produced by the library and never to be handed up:
+	// shorter than the 8-byte header, segment index beyond the announced count, or a lone segment
+	// of a longer message - each under a sequence number of its own (>= 2^31, the library's start at 0)
+	Hostile []inj  `json:"hostile,omitempty"`
+	Backend string `json:"backend,omitempty"` // ws: backend of the binary that generated the case (informational)
+}
+
+type inj struct {
+	After int    `json:"after"` // sent when this many valid messages have been written (concurrent cases: own goroutine, in list order)
+	Raw   []byte `json:"raw"`
 }
 
 // watchdog bounds every call into the library. It starts generous (loaded machine) and shrinks
@@ -237,11 +248,15 @@ func caseTerm(ci *caseIn, msgs [][][]byte, werrs int, as []att, rerr bool, tx, r
 	for _, x := range htx {
 		h = append(h, coqfmt.N(x))
 	}
-	return fmt.Sprintf("mkLb %s %s %s %s %d %s %s %d %d %s", kindTerm(ci), coqfmt.Bool(ci.CC.Level != 0), coqfmt.Bool(ci.Conc),
-		writersTerm(msgs), werrs, readsTerm(as), coqfmt.Bool(rerr), tx, rx, coqfmt.List(h))
+	injb := 0
+	for _, x := range ci.Hostile {
+		injb += len(x.Raw)
+	}
+	return fmt.Sprintf("mkLb %s %s %s %s %d %s %s %d %d %s %d %d", kindTerm(ci), coqfmt.Bool(ci.CC.Level != 0), coqfmt.Bool(ci.Conc),
+		writersTerm(msgs), werrs, readsTerm(as), coqfmt.Bool(rerr), tx, rx, coqfmt.List(h), len(ci.Hostile), injb)
 }
 
-const emptyTerm = "mkLb LbWs false false [] 0 [] false 0 0 []"
+const emptyTerm = "mkLb LbWs false false [] 0 [] false 0 0 [] 0 0"
 
 func ends(ci *caseIn, pr *pair) (w, r endpoint) {
 	if ci.Dir == "s2c" {
@@ -442,13 +457,21 @@ collect:
 	return
 }
 
-var hookMu sync.Mutex
+var hookMu, mu0 sync.Mutex
 
 func runDgram(ci *caseIn, pr *pair) (res result) {
 	if ci.P > 0 {
 		hookMu.Lock()
 		restore := verifhooks.SegmentSetMaxPayloadSize(ci.P)
 		defer func() { restore(); hookMu.Unlock() }()
+	}
+	hostile := len(ci.Hostile) > 0
+	if hostile {
+		ci.Dir = "s2c" // the raw session the harness owns is the accepted one
+		if pr.rawSrv == nil {
+			res.direct = "no raw session under the accepted " + ci.Tr + " transport"
+			return
+		}
 	}
 	wr, rd := ends(ci, pr)
 	msgs := expandAll(ci)
@@ -457,6 +480,14 @@ func runDgram(ci *caseIn, pr *pair) (res result) {
 		total += len(w)
 	}
 	nh := len(msgs) - 1
+	var injErrs []string
+	inject := func(k int) {
+		if err := pr.rawSrv.SendDatagram(ci.Hostile[k].Raw); err != nil {
+			mu0.Lock()
+			injErrs = append(injErrs, err.Error())
+			mu0.Unlock()
+		}
+	}
 	handles := make([]transport.UnreliableTransport, nh+1)
 	for k := 1; k <= nh; k++ {
 		h, ok := wr.AsUnreliable()
@@ -535,6 +566,11 @@ func runDgram(ci *caseIn, pr *pair) (res result) {
 				for h := range msgs {
 					if i < len(msgs[h]) {
 						any = true
+						for k := range ci.Hostile {
+							if ci.Hostile[k].After == n {
+								inject(k)
+							}
+						}
 						one(h, i)
 						n++
 						pace(n)
@@ -564,6 +600,17 @@ func runDgram(ci *caseIn, pr *pair) (res result) {
 					pace(i + 1)
 				}
 			}(h)
+		}
+		if hostile {
+			wg.Add(1)
+			go func() {
+				defer wg.Done()
+				<-start
+				for k := range ci.Hostile {
+					inject(k)
+					time.Sleep(time.Duration(50+37*(k%5)) * time.Microsecond)
+				}
+			}()
 		}
 		close(start)
 		wg.Wait()
@@ -605,7 +652,67 @@ collect:
 		case <-time.After(2 * time.Millisecond):
 		}
 	}
+	// hostile cases: the receive path must still deliver after the malformed datagrams.  Loss is
+	// allowed, so up to 5 probe messages (Transport.WriteUnreliable, appended to handle 0's list)
+	// are written one at a time until one is read; anything else that shows up is kept as a read.
+	probeDead := false
+	if hostile && rerr == nil {
+		alive := false
+		for p := 0; p < 5 && !alive && rerr == nil; p++ {
+			m := append([]byte{0xFD, byte(p)}, []byte("probe after malformed datagrams")...)
+			msgs[0] = append(msgs[0], m)
+			total++
+			if !guarded(func() {
+				if err := wu.WriteUnreliable(m); err != nil {
+					mu.Lock()
+					werrs = append(werrs, err.Error())
+					mu.Unlock()
+				}
+			}) {
+				res.direct = fmt.Sprintf("unreliable Write did not return within the watchdog (%s, probe)", ci.Tr)
+				return
+			}
+			wait := time.After(grace)
+		probe:
+			for {
+				select {
+				case r := <-rch:
+					if r.err != nil {
+						rerr = r.err
+						break probe
+					}
+					got = append(got, r.m)
+					if bytes.Equal(r.m, m) {
+						alive = true
+						break probe
+					}
+				case <-wait:
+					break probe
+				}
+			}
+		}
+		probeDead = !alive && rerr == nil
+		// late hand-ups of malformed datagrams
+		drain := time.After(10 * time.Millisecond)
+	drainLoop:
+		for rerr == nil {
+			select {
+			case r := <-rch:
+				if r.err != nil {
+					rerr = r.err
+				} else {
+					got = append(got, r.m)
+				}
+			case <-drain:
+				break drainLoop
+			}
+		}
+	}
 	tx, rx := wr.TxBytesCounterValue(), rd.RxBytesCounterValue()
+	var injBytes uint64
+	for _, x := range ci.Hostile {
+		injBytes += uint64(len(x.Raw))
+	}
 	var htx []uint64
 	for k := 1; k <= nh; k++ {
 		htx = append(htx, handles[k].TxBytesCounterValue())
@@ -636,7 +743,11 @@ collect:
 				fails = append(fails, fmt.Sprintf("message %d of handle %d was read %d times", a.i, a.w, used[a.w][a.i]))
 			}
 		} else {
-			fails = append(fails, fmt.Sprintf("read %d (%d bytes) is not a written message (partial or mixed reassembly)", k, len(g)))
+			what := "partial or mixed reassembly"
+			if hostile {
+				what = "a malformed datagram was handed up, or a partial/mixed reassembly"
+			}
+			fails = append(fails, fmt.Sprintf("read %d (%d bytes) is not a written message (%s)", k, len(g), what))
 		}
 		as = append(as, a)
 	}
@@ -646,8 +757,11 @@ collect:
 	if len(werrs) > 0 {
 		fails = append(fails, fmt.Sprintf("%d unreliable Write calls failed, first: %s", len(werrs), werrs[0]))
 	}
-	if rx > tx {
-		fails = append(fails, fmt.Sprintf("reader's rx counter %d exceeds writer's tx counter %d", rx, tx))
+	if probeDead {
+		fails = append(fails, "after the malformed datagrams none of 5 probe messages was delivered: the receive loop no longer hands up messages")
+	}
+	if rx > tx+injBytes {
+		fails = append(fails, fmt.Sprintf("reader's rx counter %d exceeds writer's tx counter %d + %d injected bytes", rx, tx, injBytes))
 	}
 	for k := 1; k <= nh; k++ {
 		var s uint64
@@ -659,7 +773,20 @@ collect:
 		}
 	}
 	res.term = caseTerm(ci, msgs, len(werrs), as, rerr != nil, tx, rx, htx)
-	res.obs = map[string]interface{}{"written": total, "read": len(got), "lost": total - len(got), "write_errors": len(werrs), "tx": tx, "rx": rx, "handle_tx": htx}
+	lost := 0
+	for h := range used {
+		for _, u := range used[h] {
+			if u == 0 {
+				lost++
+			}
+		}
+	}
+	res.obs = map[string]interface{}{"written": total, "read": len(got), "lost": lost, "write_errors": len(werrs), "tx": tx, "rx": rx, "handle_tx": htx}
+	if hostile {
+		res.obs["injected"] = len(ci.Hostile)
+		res.obs["injected_bytes"] = injBytes
+		res.obs["raw_send_errors"] = len(injErrs)
+	}
 	if len(werrs) > 0 {
 		res.obs["first_write_error"] = werrs[0]
 	}
@@ -804,6 +931,61 @@ func genDgram(r *rng.R, tr string, cc compCfg, P int, nh int, conc bool, perHand
 	return ci
 }
 
+// hostileRaw builds the k-th malformed datagram of a case.  Sequence number 2^31 + k: never one the
+// library uses in a case (those start at 0), never shared by two injected datagrams, so whatever
+// the receiver keeps for it can never complete.
+func hostileRaw(r *rng.R, k int) []byte {
+	hdr := func(max, idx uint16, pay []byte) []byte {
+		b := make([]byte, 8, 8+len(pay))
+		binary.BigEndian.PutUint32(b[:4], 1<<31+uint32(k))
+		binary.BigEndian.PutUint16(b[4:6], max)
+		binary.BigEndian.PutUint16(b[6:8], idx)
+		return append(b, pay...)
+	}
+	stray := append([]byte{0xEE, byte(k)}, []byte("stray")...)
+	stray = append(stray, r.Bytes(r.Intn(12))...)
+	switch r.Intn(9) {
+	case 0: // shorter than the header
+		return r.Bytes(r.Intn(8))
+	case 1: // header only, index beyond the single announced segment
+		return hdr(0, []uint16{1, 65535}[r.Intn(2)], nil)
+	case 2, 3: // one segment announced, index 1 / 65535 / random non-zero
+		return hdr(0, []uint16{1, 65535, uint16(1 + r.Intn(65535))}[r.Intn(3)], stray)
+	case 4: // index beyond the announced count, max 1
+		return hdr(1, []uint16{2, 3, 65535}[r.Intn(3)], stray)
+	case 5: // index beyond the announced count, max 5
+		return hdr(5, []uint16{6, 9, 65535}[r.Intn(3)], stray)
+	case 6: // huge announced count, a single segment of it
+		return hdr(65535, []uint16{0, 1, 65535}[r.Intn(3)], stray)
+	case 7: // a lone segment of a 2..6-segment message
+		max := uint16(1 + r.Intn(5))
+		return hdr(max, uint16(r.Intn(int(max)+1)), stray)
+	default: // random bytes behind the reserved sequence number; never a complete one-segment message
+		b := r.Bytes(8 + r.Intn(33))
+		binary.BigEndian.PutUint32(b[:4], 1<<31+uint32(k))
+		if b[4] == 0 && b[5] == 0 && b[6] == 0 && b[7] == 0 {
+			b[7] = 1
+		}
+		return b
+	}
+}
+
+// genHostile: a datagram case (accepted side writes) with 4-12 malformed datagrams sent on the raw
+// session between the valid messages
+func genHostile(r *rng.R, tr string, cc compCfg, P int, nh int, conc bool, perHandle int) *caseIn {
+	ci := genDgram(r, tr, cc, P, nh, conc, perHandle)
+	ci.Dir = "s2c"
+	total := 0
+	for _, w := range ci.Writers {
+		total += len(w)
+	}
+	n := 4 + r.Intn(9)
+	for k := 0; k < n; k++ {
+		ci.Hostile = append(ci.Hostile, inj{After: r.Intn(total), Raw: hostileRaw(r, k)})
+	}
+	return ci
+}
+
 func segsOf(n, p int) int {
 	if n <= p {
 		return 1
@@ -813,6 +995,9 @@ func segsOf(n, p int) int {
 
 func describe(ci *caseIn) (kind string, nontrivial bool) {
 	kind = ci.Tr + "-" + ci.Kind
+	if len(ci.Hostile) > 0 {
+		kind += "-hostile"
+	}
 	if ci.Conc {
 		kind += "-concurrent"
 	} else {
@@ -842,7 +1027,7 @@ func describe(ci *caseIn) (kind string, nontrivial bool) {
 		}
 	}
 	if ci.Kind == "dgram" {
-		return kind, multi && len(ci.Writers) > 1
+		return kind, (multi && len(ci.Writers) > 1) || len(ci.Hostile) > 0
 	}
 	return kind, (ci.Conc && len(ci.Writers) > 1) || total >= 3
 }
@@ -1004,6 +1189,22 @@ func main() {
 					})
 				}
 			}
+			// hostile peer: malformed datagrams on the raw session between valid messages
+			for j := 0; j < 6; j++ {
+				j := j
+				run(r.Fork(), tr, func(cr *rng.R) *caseIn {
+					p := []int{1 + cr.Intn(8), 1 + cr.Intn(8), 100, 0}[cr.Intn(4)]
+					per := 2 + cr.Intn(3)
+					if p == 0 || p == 100 {
+						per = 1 + cr.Intn(2)
+					}
+					lvl := 0
+					if j == 5 { // compression on: a payload handed up would go through inflate
+						lvl = []int{1, 6, 9}[cr.Intn(3)]
+					}
+					return genHostile(cr, tr, compCfg{Level: lvl}, p, cr.Intn(3), j >= 4, per)
+				})
+			}
 		}
 		// websocket: the whole grid, one after the other and concurrent
 		for _, cc := range wsConfigs() {
@@ -1022,7 +1223,7 @@ func main() {
 		})
 	}
 	rule := "real transports over loopback sockets (wt = transport/webtransport, quic = transport/quic, ws = transport/websocket with the " + wsBackend +
-		" backend), the repository's transport on both ends, a fresh connection per case; one round = 87 cases (26 wt, 26 quic, 35 ws), quick = 3 rounds, thorough = 30. stream: per transport every level {0,1,6,9} (ws: off, per-message x {1,6,9}, context takeover window bits {0,1,8,15} x {1,6,9}) x {one writer, 2-4 concurrent writers}, 6-14 messages per writer with sizes 0,1,2,3,5,17,100,254-258,1000,4095,4096, random <600, one or two of 65535-70000, plus cases with 1 MiB messages and writers one after the other; dgram (wt, quic): segment payload size 1-8 and 100 (hook) and the real 1188, messages of 1-6 segments at k*P, k*P-1, (k-1)*P+1, through Transport.WriteUnreliable and 0-3 AsUnreliable() handles, round robin or one goroutine per handle (3/4 of the concurrent cases: writers meet at a spin barrier before their i-th message, so that their Write calls overlap), paced (pause after 2-4 messages), read through a handle or Transport.ReadUnreliable; loss is never a violation. non-trivial = stream: concurrent writers or >=3 messages; dgram: a multi-segment message and more than one handle; distinct = distinct Coq case terms"
+		" backend), the repository's transport on both ends, a fresh connection per case; one round = 99 cases (32 wt, 32 quic, 35 ws), quick = 3 rounds, thorough = 30. stream: per transport every level {0,1,6,9} (ws: off, per-message x {1,6,9}, context takeover window bits {0,1,8,15} x {1,6,9}) x {one writer, 2-4 concurrent writers}, 6-14 messages per writer with sizes 0,1,2,3,5,17,100,254-258,1000,4095,4096, random <600, one or two of 65535-70000, plus cases with 1 MiB messages and writers one after the other; dgram (wt, quic): segment payload size 1-8 and 100 (hook) and the real 1188, messages of 1-6 segments at k*P, k*P-1, (k-1)*P+1, through Transport.WriteUnreliable and 0-3 AsUnreliable() handles, round robin or one goroutine per handle (3/4 of the concurrent cases: writers meet at a spin barrier before their i-th message, so that their Write calls overlap), paced (pause after 2-4 messages), read through a handle or Transport.ReadUnreliable; loss is never a violation; hostile (6 per transport and round, accepted side writes): 4-12 malformed datagrams sent on the raw session between the valid messages (0-7 bytes; header only / payload with max index 0 and index 1, 65535, random; index beyond max for max 1 and 5; max 65535 with one segment; a lone segment of a 2-6 segment message; random bytes), each under its own sequence number >= 2^31 - none may be handed up, no Read may fail, and a probe message written afterwards must arrive (5 tries). non-trivial = stream: concurrent writers or >=3 messages; dgram: a multi-segment message and more than one handle, or a hostile case; distinct = distinct Coq case terms"
 	if *only != "" {
 		rule = "(-only " + *only + ") " + rule
 	}
